@@ -467,6 +467,30 @@ func vfC18clean(c *hx.Ctx) {
 			}
 		}
 	}
+	// bursts larger than the receive window against a send window larger than the receive window: the receiver inputs all
+	// datagrams of an instant before its reader runs; only the window the peer advertised (and the 32 a sender assumes
+	// before it is told) keeps the sender from overrunning it
+	for _, mode := range []string{"session", "update"} {
+		for _, nd := range [][4]int{{1, 10, 2, 1}, {1, 10, 0, 0}, {0, 40, 2, 1}, {0, 20, 0, 0}} {
+			for _, D := range []uint32{1, 5} {
+				for _, wnd := range [][2]int{{128, 32}, {64, 32}, {256, 32}, {128, 128}, {256, 64}} {
+					for _, stream := range []bool{true, false} {
+						for _, nseg := range []int{100, 200} {
+							var w []int
+							for i := 0; i < nseg; i++ {
+								w = append(w, 16)
+							}
+							cf := vfSimCfg{Mode: mode, Stream: stream, SndWnd: [2]int{wnd[0], wnd[0]}, RcvWnd: [2]int{wnd[1], wnd[1]}, Mtu: 40, NoDelay: nd,
+								Delay: D, HorizonMs: 600000, PauseAfter: -1, CleanPath: true, BatchReader: true}
+							cf.Writes[0] = w
+							cf.Writes[1] = w[:2]
+							cfgs = append(cfgs, vfNamedCfg{fmt.Sprintf("burst/%s/nodelay=%v/D=%d/snd=%d,rcv=%d/stream=%v/%dwrites", mode, nd, D, wnd[0], wnd[1], stream, nseg), cf})
+						}
+					}
+				}
+			}
+		}
+	}
 	// two independent flush clocks (different intervals, phase offsets), applications writing at their own pace in both
 	// directions: many relative alignments of "data queued", "acknowledgement-only flush", "full flush" and "ack arrives"
 	for _, mode := range []string{"session", "update"} {
